@@ -59,6 +59,9 @@ def run_property(prop, tier, repo=None, write=True):
     evidence_dir = os.path.join(VERIF, "evidence")
     try:
         program = load_program(repo)
+        from . import symexp
+
+        symexp.set_program(program)
         ctx = Ctx(program, tier, prop)
         results = []
         for rule in spec["rules"]:
